@@ -59,10 +59,20 @@ def gen_random(scn, rng, depth):
     exists = {s for s, i in servers.items() if i}
     alive = True
     days = 0
+    deferred = False
     for _ in range(depth):
         r = rng.random()
         free = [a for a in scn['apps'] if a not in apps]
+        # the master may be busy: watch events pile up and are then processed in
+        # no particular order between the watched paths (a cycle drains them)
+        if alive and not deferred and rng.random() < 0.07:
+            hist.append(('Defer', []))
+            deferred = True
+        elif deferred and (rng.random() < 0.3 or not alive):
+            hist.append(('Deliver', []))
+            deferred = False
         if r < 0.22:
+            deferred = False
             if alive:
                 if rng.random() < 0.25:
                     hist.append(('CrashCycle', [rng.randrange(1, 5)]))
@@ -125,7 +135,8 @@ def gen_random(scn, rng, depth):
         elif r < 0.88:
             hist.append(('SetAllocs', [rng.randrange(len(scn['allocsets'])) + 1]))
         elif r < 0.91:
-            hist.append(('Blacklist', [rng.choice([[], ['proid.web'], ['proid.*'], ['other.app']])]))
+            hist.append(('Blacklist', [rng.choice([[], ['proid.web'], ['proid.*'], ['other.app'],
+                                                    ['pro*.web'], ['*.db'], ['*id.w?b', 'other.*']])]))
         elif r < 0.96:
             if days < 18 and rng.random() < 0.25:
                 d = rng.choice([1, 4, 8, 16])
